@@ -1,9 +1,11 @@
 /-
-The tie between the model's byte classes, escape tables and defaults and the tables that
-`extract/extract_tables.py` regenerates from /repo/src on every run (`Jawk.Generated.*`).
+The tie between the model's byte classes, escape tables and defaults and the tables regenerated on every
+run (`Jawk.Generated.*`): `ByteClasses` by running the real code on EVERY byte (`harness probe`,
+cross-checked against the control flow where `extract/extract_tables.py` recognises it), `Presets` by
+reading the literals of /repo/src.
 
-Every theorem here says: "the model's definition is the table the source has now".  A change of the
-source construct changes the generated table, and the theorem stops checking.  Statements over bytes
+Every theorem here says: "the model's definition is the table the code has now".  A change of the
+code changes the generated table, and the theorem stops checking.  Statements over bytes
 are proved for all 256 bytes by kernel evaluation and lifted by `forall_byte`.
 -/
 import Jawk.Generated.ByteClasses
@@ -20,7 +22,7 @@ theorem forall_byte {p : Byte → Bool} (h : ∀ n : Fin 256, p (UInt8.ofNat n.v
   have := h ⟨b.toNat, UInt8.toNat_lt b⟩
   simpa using this
 
-/-- `Reader.isWs` is exactly the set of bytes `Reader::eat_whitespace` skips in the source. -/
+/-- `Reader.isWs` is exactly the set of bytes the real code skips between values. -/
 theorem isWs_generated (b : Byte) : isWs b = Generated.whitespaceBytes.contains b.toNat := by
   have := forall_byte (p := fun b => isWs b == Generated.whitespaceBytes.contains b.toNat)
     (by decide +kernel) b
@@ -44,29 +46,35 @@ theorem keyStop_generated (b : Byte) : keyStop b = Generated.keyStopBytes.contai
     (by decide +kernel) b
   simpa using this
 
-/-- the bytes that can start a value, per `next_json_value`'s arms -/
-def startsValue (b : Byte) : Bool := Generated.valueStartArms.any (fun arm => arm.1.contains b.toNat)
+/-- the bytes that can start a value, by what the real code reads after them -/
+def startsValue (b : Byte) : Bool := Generated.valueStartKinds.any (fun arm => arm.1.contains b.toNat)
 
-/-- C06's `Garbage` is exactly: not skipped as white space and matched by no arm of `next_json_value`. -/
-theorem garbage_generated (b : Byte) :
-    C06.Garbage b = (!Generated.whitespaceBytes.contains b.toNat && !startsValue b) := by
-  have := forall_byte
-    (p := fun b => C06.Garbage b == (!Generated.whitespaceBytes.contains b.toNat && !startsValue b))
+/-- C06's `Garbage` is exactly the set of bytes on which the real code spends one byte and one recoverable
+error where a value may start. -/
+theorem garbage_generated (b : Byte) : C06.Garbage b = Generated.garbageBytes.contains b.toNat := by
+  have := forall_byte (p := fun b => C06.Garbage b == Generated.garbageBytes.contains b.toNat)
     (by decide +kernel) b
   simpa using this
 
-/-- The arms of `next_json_value` call, in source order, the readers the model's `nextValue` chain
-mirrors (`t`, `f`, `n`, `"`, `-`/digit, `[`, `{`); with `garbage_generated` this fixes which bytes reach
-which reader.  (The reader names are compared as code points.) -/
-theorem valueStart_readers :
-    Generated.valueStartArms =
-      [([116], "read_true".toList.map Char.toNat),
-       ([102], "read_false".toList.map Char.toNat),
-       ([110], "read_null".toList.map Char.toNat),
-       ([34], "read_string".toList.map Char.toNat),
-       (45 :: (List.range 10).map (· + 48), "read_number".toList.map Char.toNat),
-       ([91], "read_array".toList.map Char.toNat),
-       ([123], "read_object".toList.map Char.toNat)] := by
+/-- every byte is white space, the start of a value, or garbage — exactly one of the three -/
+theorem byte_classes_partition (b : Byte) :
+    ((isWs b && !startsValue b && !C06.Garbage b) || (!isWs b && startsValue b && !C06.Garbage b)
+      || (!isWs b && !startsValue b && C06.Garbage b)) = true := by
+  exact forall_byte (p := fun b =>
+    (isWs b && !startsValue b && !C06.Garbage b) || (!isWs b && startsValue b && !C06.Garbage b)
+      || (!isWs b && !startsValue b && C06.Garbage b)) (by decide +kernel) b
+
+/-- The first byte decides the kind of value, as in the model's `nextValue` chain: `t`, `f`, `n`, `"`,
+`-`/digit, `[`, `{` (kinds compared as code points). -/
+theorem valueStart_kinds :
+    Generated.valueStartKinds =
+      [([116], "true".toList.map Char.toNat),
+       ([102], "false".toList.map Char.toNat),
+       ([110], "null".toList.map Char.toNat),
+       ([34], "string".toList.map Char.toNat),
+       (45 :: (List.range 10).map (· + 48), "number".toList.map Char.toNat),
+       ([91], "array".toList.map Char.toNat),
+       ([123], "object".toList.map Char.toNat)] := by
   decide +kernel
 
 /-- the two-character escapes `read_string` accepts, and the byte each one pushes -/
